@@ -407,6 +407,9 @@ def attribute(v, T, bound):
                 if pv["kind"] != "timeout":
                     other = True
         info["terminates_under_another_strategy_setting"] = other
+        if not other:
+            fl = cur["snap"]["flags"]
+            info["at_least_3_variables_and_2_parameters"] = (fl.count(0) >= 3 and fl.count(1) >= 2)
     for name in FRESH_VARIANTS:
         exe = T.variant(name)
         if exe is None:
@@ -560,8 +563,8 @@ def run(chk):
         process(chk, T, vs, bound, stats)
         chk.log("corpus: %d cases, %d failing steps" % (len(cases), stats["failing_steps"]))
     # ---- generated histories ------------------------------------------------------------------
-    total = 3500 if chk.quick else 14000
-    batch = 700 if chk.quick else 1000
+    total = 3000 if chk.quick else 14000
+    batch = 600 if chk.quick else 1000
     budget_s = 150 if chk.quick else 1500
     done = 0; b = 0
     t_gen = time.time()      # the budget covers generation and judging, not the wait for the shared Coq lock
